@@ -108,7 +108,7 @@ func runScenario(r *vrun.Run, sc scenario, keep bool) *result {
 		r.Fatalf("scratch: %v", err)
 	}
 	defer os.RemoveAll(dir)
-	if sub, _ := lockh.Names(sc.Index); sub != "" {
+	if sub, _ := lockh.Names(sc.Index); sub != "" && !lockh.MissingDir(sc.Index) {
 		_ = os.MkdirAll(filepath.Join(dir, sub), 0o755)
 	}
 	rng := r.Rand(sc.Stream+"-sched", sc.Index)
@@ -126,9 +126,21 @@ func runScenario(r *vrun.Run, sc scenario, keep bool) *result {
 	res.s = s
 	res.deadlock = sched.Bubble(func() {
 		sub, id := lockh.Names(sc.Index)
-		w := lockh.NewWorld(filepath.Join(dir, sub), id, s)
+		missingDir := lockh.MissingDir(sc.Index)
+		var w *lockh.World
+		if lockh.MemBackend(sc.Index) {
+			w = lockh.NewMemWorld(filepath.Join(dir, sub), id, s, !missingDir)
+		} else {
+			w = lockh.NewWorld(filepath.Join(dir, sub), id, s)
+		}
 		w.KeepEvents = keep
 		res.w = w
+		if sc.Stream == "rand" && sc.Index%4 == 1 {
+			// one transient I/O failure (the operation is not executed and reports an error) somewhere in the life of one
+			// contender: a failed heartbeat write of a live holder must not open the door to a second holder
+			frng := r.Rand(sc.Stream+"-fault", sc.Index)
+			w.FaultAt(fmt.Sprintf("c%d", frng.IntN(sc.Contenders)), lockh.Fault{K: 4 + frng.IntN(60), Kind: "err-before"})
+		}
 		s.Run(func() {
 			root, cancelAll := context.WithTimeout(context.Background(), 20*time.Second)
 			defer cancelAll()
